@@ -425,7 +425,11 @@ static inline void race_access_gran(uintptr_t ga, uint8_t mask, bool is_write, b
     }
     bool ordered = s.clk <= me->vc.c[s.tid];
     if (overlap) {
-      bool conflict = ((s.flags & 1) || is_write) && !((s.flags & 2) && atomic);
+      // atomic vs atomic never conflicts.  An atomic access after a plain *write* is the
+      // "initialise, publish, use atomically" pattern (constructor of a std::atomic member): the
+      // property (C03) speaks about plain objects, so this pair is not reported; plain payload
+      // published without synchronisation is still caught on the payload's own plain accesses.
+      bool conflict = ((s.flags & 1) || is_write) && !((s.flags & 2) && atomic) && !(atomic && (s.flags & 3) == 1);
       if (conflict && !ordered) report_race(ga, s, is_write, atomic, pc, "data race");
     }
     if (ordered && (s.mask & ~mask) == 0 && (is_write || !(s.flags & 1)) && (!atomic || (s.flags & 2))) hbslot = i;
